@@ -81,6 +81,22 @@ class SimRandom(_random.Random):
         return bytes(self.randrange(0, 256) for _ in range(n))
 
 
+class PerCallerRandom(SimRandom):
+    """One scripted random source per caller thread (by thread name); every draw of a thread consumes that thread's
+    script.  Used when two callers draw at the same time under sim/interleave.py."""
+
+    def __init__(self, scripts):
+        super().__init__(())
+        self.per = {name: SimRandom(script) for name, script in scripts.items()}
+
+    def randrange(self, start, stop=None, step=1):
+        import threading
+        inst = self.per.get(threading.current_thread().name)
+        if inst is None:
+            return super().randrange(start, stop, step)
+        return inst.randrange(start, stop, step)
+
+
 _GLOBAL_NAMES = ["randrange", "randint", "random", "getrandbits", "choice", "uniform", "randbytes",
                  "shuffle", "sample", "choices"]
 
@@ -186,8 +202,13 @@ WRITER_OPS = ["add_byte", "add_bytes", "add_char", "add_short", "add_three", "ad
 def make_faulty_reader(EoReader):
     base_remaining = EoReader.remaining.fget
 
+    base_mode = EoReader.chunked_reading_mode
+
     class FaultyReader(EoReader):
-        def __init__(self, data, fault_at=None, exc=None, cap=2_000_000):
+        def __init__(self, data, fault_at=None, exc=None, cap=2_000_000, detached=False):
+            # detached: a subclass that keeps the mode in storage of its own behind the public property
+            self.sim_detached = bool(detached)
+            self.sim_mode = False
             super().__init__(data)
             self.sim_n = 0
             self.sim_log = []
@@ -201,12 +222,22 @@ def make_faulty_reader(EoReader):
         def _tick(self, op):
             i = self.sim_n
             self.sim_n = i + 1
-            self.sim_log.append((op, self._chunked_reading_mode))
+            self.sim_log.append((op, self.chunked_reading_mode))
             if i == self.sim_fault_at:
                 self.sim_fired = True
                 raise self.sim_exc
             if i >= self.sim_cap:
                 raise StepCap()
+
+        @property
+        def chunked_reading_mode(self):
+            return self.sim_mode if self.sim_detached else base_mode.fget(self)
+
+        @chunked_reading_mode.setter
+        def chunked_reading_mode(self, value):
+            if self.sim_detached:
+                self.sim_mode = value           # authoritative for this subclass; the base class is told as well
+            base_mode.fset(self, value)
 
         @property
         def remaining(self):
@@ -237,8 +268,12 @@ def make_faulty_reader(EoReader):
 
 
 def make_faulty_writer(EoWriter):
+    base_wmode = EoWriter.string_sanitization_mode
+
     class FaultyWriter(EoWriter):
-        def __init__(self, fault_at=None, exc=None, cap=2_000_000):
+        def __init__(self, fault_at=None, exc=None, cap=2_000_000, detached=False):
+            self.sim_detached = bool(detached)
+            self.sim_mode = False
             super().__init__()
             self.sim_n = 0
             self.sim_log = []
@@ -251,12 +286,22 @@ def make_faulty_writer(EoWriter):
         def _tick(self, op):
             i = self.sim_n
             self.sim_n = i + 1
-            self.sim_log.append((op, self._string_sanitization_mode))
+            self.sim_log.append((op, self.string_sanitization_mode))
             if i == self.sim_fault_at:
                 self.sim_fired = True
                 raise self.sim_exc
             if i >= self.sim_cap:
                 raise StepCap()
+
+        @property
+        def string_sanitization_mode(self):
+            return self.sim_mode if self.sim_detached else base_wmode.fget(self)
+
+        @string_sanitization_mode.setter
+        def string_sanitization_mode(self, value):
+            if self.sim_detached:
+                self.sim_mode = value           # authoritative for this subclass; the base class is told as well
+            base_wmode.fset(self, value)
 
         def __len__(self):
             if not self.sim_depth:
